@@ -304,36 +304,48 @@ func joinBytes(bs []*Term) *Term {
 	return Concat(bs...)
 }
 
-// hashUF: uninterpreted hash of a byte string of known length
+// hashUF: hash of a byte string of known length. Concrete inputs are evaluated with the
+// real hash; symbolic inputs become an uninterpreted function per input length. The
+// hash is idealised as collision-free on the inputs that occur on the path: for every
+// pair of applications, outputs are equal iff inputs are equal (ground instances of
+// injectivity + functional consistency, also against concretely evaluated hashes).
 func (e *Exec) hashUF(name string, in []*Term, outBytes int) []*Term {
-	if raw, ok := concreteBytes(in); ok {
-		if f, ok := concreteHashes[name]; ok {
-			out := f(raw)
-			ts := make([]*Term, len(out))
-			for i, b := range out {
-				ts[i] = BVU(8, uint64(b))
-			}
-			return ts
+	var outT *Term
+	var out []*Term
+	if raw, ok := concreteBytes(in); ok || len(in) == 0 {
+		f, okf := concreteHashes[name]
+		if !okf {
+			panic(abortf("ENGINE no concrete hash %s", name))
 		}
-	}
-	if len(in) == 0 {
-		if f, ok := concreteHashes[name]; ok {
-			out := f(nil)
-			ts := make([]*Term, len(out))
-			for i, b := range out {
-				ts[i] = BVU(8, uint64(b))
-			}
-			return ts
+		res := f(raw)
+		out = make([]*Term, len(res))
+		for i, b := range res {
+			out[i] = BVU(8, uint64(b))
 		}
+		if len(in) == 0 {
+			return out
+		}
+		outT = joinBytes(out)
+	} else {
+		uf := fmt.Sprintf("%s_%d", name, len(in))
+		outT = UF(uf, BVSort(8*outBytes), joinBytes(in))
+		out = splitBytes(outT)
 	}
-	uf := fmt.Sprintf("%s_%d", name, len(in))
-	t := UF(uf, BVSort(8*outBytes), joinBytes(in))
-	// remember applications for injectivity instances on demand
 	if e.hashApps == nil {
 		e.hashApps = map[string][]hashApp{}
 	}
-	e.hashApps[name] = append(e.hashApps[name], hashApp{in: in, out: t})
-	return splitBytes(t)
+	for _, prev := range e.hashApps[name] {
+		if prev.out.IsConst() && outT.IsConst() {
+			continue
+		}
+		if len(prev.in) != len(in) {
+			e.assume(Not(Eq(prev.out, outT)))
+			continue
+		}
+		e.assume(Eq(Eq(prev.out, outT), bytesEq(prev.in, in)))
+	}
+	e.hashApps[name] = append(e.hashApps[name], hashApp{in: in, out: outT})
+	return out
 }
 
 func sliceOfSlices(v Value) [][]*Term {
